@@ -126,3 +126,31 @@ def versions():
         except Exception:
             out[name] = "absent"
     return out
+
+
+def recheck_unsat(solver: z3.Solver, budget_s=10):
+    """thorough tier: an obligation z3 discharged (unsat) is put to cvc5 as SMT-LIB2 text.
+    Returns 'agree' (unsat), 'unknown' (timeout / unsupported) or 'DISAGREE' (cvc5 says sat)."""
+    import shutil
+    exe = CVC5 if os.path.exists(CVC5) else shutil.which("cvc5")
+    if not exe:
+        return "unknown"
+    try:
+        text = solver.to_smt2()
+    except Exception:
+        return "unknown"
+    with tempfile.NamedTemporaryFile("w", suffix=".smt2", delete=False, dir=os.environ.get("VERIF_SCRATCH")) as fh:
+        fh.write(text)
+        path = fh.name
+    try:
+        out = subprocess.run([exe, "--strings-exp", f"--tlimit={budget_s * 1000}", path], capture_output=True, text=True,
+                             timeout=budget_s + 5).stdout.strip().splitlines()
+        ans = out[0].strip() if out else ""
+        return {"unsat": "agree", "sat": "DISAGREE"}.get(ans, "unknown")
+    except Exception:
+        return "unknown"
+    finally:
+        try:
+            os.unlink(path)
+        except OSError:
+            pass
